@@ -49,6 +49,10 @@ pub struct Oracles {
     pub cache: bool,
     /// C16: panics are the violation (everything else is ignored)
     pub panics_only: bool,
+    /// C15: additionally drain the evictable entries after EVERY operation (the
+    /// worker is idle then) and require that nothing at or below the boundary
+    /// stays resident
+    pub drain_each: bool,
 }
 
 #[derive(Clone, Debug)]
@@ -494,6 +498,23 @@ pub fn run(spec: &SeqSpec, hist: &[Op], cfg: &Cfg, stats: &SeqStats) -> Result<R
                         check_cache_pinned(&at_write).map_err(|e| vio(spec, "cache-over-limit-unpinned", e, upto, cfg, json!({})))?;
                     } else if is_last && check_cache_pinned(&c).is_err() {
                         stats.lazy_eviction_states.fetch_add(1, Ordering::Relaxed);
+                    }
+                    if o.drain_each {
+                        sut.rl().drain_cache_evictable();
+                        let c = sut.cache();
+                        check_cache(&c).map_err(|e| vio(spec, "cache-accounting", e, upto, cfg, json!({"at":"after drain"})))?;
+                        for (id, _) in &c.resident {
+                            if Some(*id) <= c.boundary {
+                                return Err(vio(
+                                    spec,
+                                    "cache-drain",
+                                    format!("worker idle, drained after {}: resident {:?} is at or below the boundary {:?}", op.short(), id, c.boundary),
+                                    upto,
+                                    cfg,
+                                    json!({}),
+                                ));
+                            }
+                        }
                     }
                 }
             }
